@@ -20,6 +20,7 @@ from __future__ import annotations
 
 import collections
 import os
+import time
 
 from vf.common import Shard, short_tb
 
@@ -163,6 +164,8 @@ def check_program(sh: Shard, prog, seeds):
 def run_shard(sh: Shard) -> None:
     from vf.harness import c04_wfgen as G
 
+    G.warm_up()
+    sh.t0 = time.time()  # soft budget counts from after the engine import (minutes on a loaded machine)
     rng = sh.rng("programs", sh.shard)
     nsched = sh.pick(3, 8)
     hist = collections.Counter()
